@@ -169,6 +169,29 @@ def run(ck):
                          "A": hexs(a), "B": hexs(b), "wire_chunks": [hexs(c) for c in chunks], "reason": "wire is not a sequence of valid packets carrying A and B exactly once"})
     ck.oblige("concurrency probe: flush racing a slow write callback (%d runs)" % len(pm), race_bad == 0, "%d bad" % race_bad)
     two_sender_probe(ck, rr, "C01")
+    # the submission path itself (bidib_buffer_message_with(out)_data) for every address depth and payload sizes around the default
+    # packet capacity and up to the largest legal message (length byte 127): each submitted message is on the wire once, intact
+    L3 = ["start 1 - 0"]; sw = []
+    for d, a3 in enumerate([(0, 0, 0), (1, 0, 0), (1, 2, 0), (1, 2, 3)]):
+        top = 124 - d
+        for n in sorted(set([0, 1, 2, 54, 55, 56, 57, 58, 59, 60, 61, 62, 100, top - 3, top - 2, top - 1, top])):
+            data = [rr.range(1, 250) for _ in range(n)]
+            sw.append((a3, n, data))
+            L3 += ["case w%d" % (len(sw) - 1), "reset_nodes", "cap 0", "flush", "send %d %d %d %d %s" % (a3 + (0x23, hexs(data) if data else "-")), "flush"]
+    rc3, out3, err3 = vlib.run_driver(exe, "\n".join(L3) + "\n", timeout=300)
+    pc3 = vlib.split_cases(out3); wbad = 0
+    for i, (a3, n, data) in enumerate(sw):
+        ls = pc3.get("w%d" % i)
+        chunks = [unhex(l[2:]) for l in (ls or []) if l.startswith("w ")]
+        pk = flowgen.decode_wire(chunks) if ls is not None else None
+        got = [(tuple(a), ty, tuple(dd)) for p in (pk or []) for a, sq, ty, dd in [flowgen.msg_fields(m) for m in p]]
+        if pk is None or got != [(tuple(x for x in a3 if x), 0x23, tuple(data))]:
+            wbad += 1
+            if wbad <= 2:
+                ck.violation("submit-dropped-or-altered", {"property": "C01", "script": ["reset_nodes", "cap 0", "flush", "send %d %d %d %d %s" % (a3 + (0x23, hexs(data) if data else "-")), "flush"],
+                             "address": list(a3), "data_bytes": n, "wire_chunks": [hexs(c) for c in chunks], "driver_rc": rc3,
+                             "reason": "a message of legal size submitted through bidib_buffer_message_with(out)_data is not on the wire exactly once and intact"})
+    ck.oblige("submission path: every address depth x payload sizes up to the largest legal message, on the wire once and intact (%d messages)" % len(sw), wbad == 0, "%d bad" % wbad)
     md = vlib.build_model_driver(cdir)
     r = Rng(ck.seed).fork("C01")
     n = 4000 if quick else 150000
